@@ -5,9 +5,11 @@ package main
 import (
 	"fmt"
 	"go/ast"
+	"go/constant"
 	"go/token"
 	"go/types"
 	"sort"
+	"strconv"
 	"strings"
 
 	"golang.org/x/tools/go/packages"
@@ -45,6 +47,11 @@ func (c *canonizer) ident(id *ast.Ident) string {
 			return s
 		}
 		return id.Name
+	}
+	// a string constant of the package itself (or a local one) is what it
+	// stands for: extracting a repeated literal into a constant changes nothing
+	if k, ok := o.(*types.Const); ok && k.Pkg() == c.p.Types && k.Val().Kind() == constant.String {
+		return strconv.Quote(constant.StringVal(k.Val()))
 	}
 	if _, isField := o.(*types.Var); isField && o.(*types.Var).IsField() {
 		if s, ok := c.subst["."+id.Name]; ok {
